@@ -18,6 +18,7 @@ __TAPKEE_IMPLEMENTATION(ManifoldSculpting)
     void validate()
     {
         parameters[squishing_rate].checked().satisfies(InRange<ScalarType>(0.0, 1.0)).orThrow();
+        parameters[target_dimension].checked().satisfies(InRange<IndexType>(1, current_dimension + 1)).orThrow();
     }
 
     TapkeeOutput embed()
